@@ -2441,6 +2441,106 @@ fn report_plain(env: &Env, src: &mut Src<'_>) -> CaseResult {
     Ok(CaseOk::new(true, &(k, src.used(), src.raw(), src.raw()), sample).labels(labels))
 }
 
+// ------------------------------------------------------------------------------------------
+// producers: every way the crate itself builds a bit-array value yields a canonical encoding
+// ------------------------------------------------------------------------------------------
+
+/// Values are not only built by deserialisation and `truncate_from`: `expand`, `!`, `+`, `*`,
+/// `from_fn`, `from_iter`, `set`, `try_from(&BitSlice)`, `Expand` of shares ... produce them too,
+/// and whatever they produce is sent over the wire as is. Each produced value must have zero
+/// padding, serialise to the encoding of the value with the same BITS bits, and be accepted by
+/// the decoder.
+fn producers(env: &Env, src: &mut Src<'_>) -> CaseResult {
+    use crate::{
+        ff::{ArrayAccess, Expand, boolean::Boolean},
+        secret_sharing::{SharedValue, SharedValueArray, replicated::{ReplicatedSecretSharing, semi_honest::AdditiveShare}},
+    };
+    fn go<B>(env: &Env, name: &'static str, src: &mut Src<'_>) -> Result<(&'static str, u64), CaseErr>
+    where
+        B: BooleanArray + Serializable + std::ops::Not<Output = B> + std::ops::Mul<Output = B> + std::ops::Mul<Boolean, Output = B> + SharedValueArray<Boolean> + Expand<Boolean>,
+        AdditiveShare<B>: Expand<AdditiveShare<Boolean>> + Serializable + std::ops::Not<Output = AdditiveShare<B>>,
+    {
+        let bits = <B as SharedValue>::BITS as usize;
+        let gen_bits = |src: &mut Src<'_>| -> Vec<bool> {
+            match src.below(4) {
+                0 => vec![false; bits],
+                1 => vec![true; bits],
+                _ => (0..bits).map(|_| src.bool()).collect(),
+            }
+        };
+        let build = |v: &[bool]| -> B {
+            let mut x = <B as SharedValue>::ZERO;
+            for (i, b) in v.iter().enumerate() {
+                x.set(i, Boolean::from(*b));
+            }
+            x
+        };
+        let (va, vb) = (gen_bits(src), gen_bits(src));
+        let (a, b) = (build(&va), build(&vb));
+        let bit = src.bool();
+        let op = src.below(12);
+        let (what, produced, want): (&'static str, B, Vec<bool>) = match op {
+            0 => ("expand", B::expand(&Boolean::from(bit)), vec![bit; bits]),
+            1 => ("not", !a, va.iter().map(|x| !x).collect()),
+            2 => ("add", a + b, va.iter().zip(&vb).map(|(x, y)| x ^ y).collect()),
+            3 => ("sub-of-not", !a - b, va.iter().zip(&vb).map(|(x, y)| !x ^ y).collect()),
+            4 => ("mul", a * b, va.iter().zip(&vb).map(|(x, y)| x & y).collect()),
+            5 => ("mul-boolean", a * Boolean::from(bit), va.iter().map(|x| x & bit).collect()),
+            6 => ("from_fn", <B as SharedValueArray<Boolean>>::from_fn(|i| Boolean::from(va[i])), va.clone()),
+            7 => ("from_iter", va.iter().map(|x| Boolean::from(*x)).collect::<B>(), va.clone()),
+            8 => ("neg", -a, va.clone()),
+            9 => ("expand-plus", B::expand(&Boolean::from(bit)) + a, va.iter().map(|x| x ^ bit).collect()),
+            10 => ("not-of-expand", !B::expand(&Boolean::from(bit)), vec![!bit; bits]),
+            _ => ("try_from-bitslice", B::try_from(a.as_bitslice()).map_err(|e| violation(format!("producer-error:{name}"), format!("{e:?}"), json!({})))?, va.clone()),
+        };
+        let reference = build(&want);
+        let cj = json!({"type": name, "producer": what, "a": format!("{a:?}"), "b": format!("{b:?}"), "bit": bit});
+        let mut got = GenericArray::<u8, <B as Serializable>::Size>::default();
+        produced.serialize(&mut got);
+        let mut exp = GenericArray::<u8, <B as Serializable>::Size>::default();
+        reference.serialize(&mut exp);
+        if got != exp || produced != reference {
+            known_or_violation(env, &format!("noncanonical-produced:{what}:{name}"), format!("{name}: value produced by `{what}` encodes to {:?}, the value with the same {bits} bits encodes to {:?}", &got[..], &exp[..]), cj.clone())?;
+        }
+        if let Err(e) = B::deserialize(&got) {
+            known_or_violation(env, &format!("noncanonical-produced:{what}:{name}"), format!("{name}: the decoder rejects the encoding of a value produced by `{what}`: {e}"), cj.clone())?;
+        }
+        // the same through shares: expanding a shared bit, complementing a share
+        let sbit: AdditiveShare<Boolean> = AdditiveShare::new(Boolean::from(bit), Boolean::from(src.bool()));
+        let sh: AdditiveShare<B> = match src.below(3) {
+            0 => <AdditiveShare<B> as Expand<AdditiveShare<Boolean>>>::expand(&sbit),
+            1 => !AdditiveShare::<B>::new(a, b),
+            _ => !<AdditiveShare<B> as Expand<AdditiveShare<Boolean>>>::expand(&sbit),
+        };
+        let mut sb = GenericArray::<u8, <AdditiveShare<B> as Serializable>::Size>::default();
+        sh.serialize(&mut sb);
+        if AdditiveShare::<B>::deserialize(&sb).is_err() {
+            known_or_violation(env, &format!("noncanonical-produced:share:{name}"), format!("{name}: the decoder rejects the encoding {:?} of a share produced by expand / not", &sb[..]), cj)?;
+        }
+        Ok((what, digest(&(va, vb, bit, op))))
+    }
+    const NAMES: [&str; 14] = ["BA3", "BA4", "BA5", "BA6", "BA7", "BA8", "BA16", "BA20", "BA32", "BA64", "BA96", "BA112", "BA144", "BA256"];
+    let t = src.idx(14);
+    let n = NAMES[t];
+    let (what, dg) = match t {
+        0 => go::<BA3>(env, n, src),
+        1 => go::<BA4>(env, n, src),
+        2 => go::<BA5>(env, n, src),
+        3 => go::<BA6>(env, n, src),
+        4 => go::<BA7>(env, n, src),
+        5 => go::<BA8>(env, n, src),
+        6 => go::<BA16>(env, n, src),
+        7 => go::<BA20>(env, n, src),
+        8 => go::<BA32>(env, n, src),
+        9 => go::<BA64>(env, n, src),
+        10 => go::<BA96>(env, n, src),
+        11 => go::<BA112>(env, n, src),
+        12 => go::<BA144>(env, n, src),
+        _ => go::<BA256>(env, n, src),
+    }?;
+    Ok(CaseOk::new(true, &(t, dg), json!({"type": n, "producer": what})).label(format!("type:{n}")).label(format!("producer:{what}")))
+}
+
 pub fn subs(_env: &Env) -> Vec<Sub> {
     let n_small = small_types(3).len() as u64;
     vec![
@@ -2452,6 +2552,8 @@ pub fn subs(_env: &Env) -> Vec<Sub> {
             "one case per type of at most 3 bytes: the number of byte strings the implementation accepts, counted over all 256^size strings (all 2^24 for BA20/Gf20Bit in both tiers), equals the advertised number of values (31 for Fp31, 2 for Boolean/Gf2, 8 for BA3/Gf3Bit, 512 for Gf9Bit, 2^16 for BA16, 2^20 for BA20/Gf20Bit, products for shares)"),
         Sub::random("large_decode", 160, 1_500_000, 30_000_000, large_decode,
             "every Serializable type (fields, Gf*, BA3..BA256, Fp25519, RP25519, Hash, Seed pairs, UniqueTag, public key, PRF report, semi-honest and malicious shares, StdArray<_,1/16/32/64/256>, hash/proof arrays): canonical encodings of random values with up to three components replaced by boundary encodings {0, p-1, p, p+1, p+small, all-ones, 2^k; max value, one/all/only padding bits; Boolean 2,3,0x80,255; l-1, l, l+1, k*l, 2^252, 2^255; Ristretto identity, basepoint, k*B, odd s, s>=p, high bit, bit-flipped point}, plus all-zero/all-ones/random strings: accept iff canonical by the model (Ristretto: must-reject classes only), accepted strings re-encode to themselves, no panic; non-trivial = non-canonical or non-zero"),
+        Sub::random("producers", 600, 300_000, 6_000_000, producers,
+            "values produced by the crate's own operations on BA3..BA256 - expand, !, +, -, *, * Boolean, neg, from_fn, from_iter, try_from(&BitSlice), and expand / ! of shares - from all-zero / all-one / random operands: the produced value equals, and encodes exactly like, the value built bit by bit (padding zero), and the decoder accepts it"),
         Sub::random("roundtrip", 200, 800_000, 15_000_000, roundtrip,
             "every type of the table: a value built through the public constructors (truncate_from of boundary-biased integers, bit-by-bit collection, Scalar/basepoint multiples, hashing, FromRandom, share and array constructors) encodes to the reference bytes (little-endian integer, components concatenated), serialize overwrites all Size bytes, and the encoding decodes to the same value; non-trivial = some non-zero byte"),
         Sub::random("transposes", 64, 40_000, 1_000_000, transposes,
